@@ -251,7 +251,8 @@ ltostr(char *restrict buf, size_t bsz, long int v,
 		*bp++ = C(x);
 	}
 	/* fill up with padding */
-	if (UNLIKELY(pad)) {
+	if (UNLIKELY(pad && pad < DT_SPPAD_OMIT)) {
+		/* NONE and OMIT don't pad, there's no pad char for them */
 		static const char pads[] = " 0";
 		const char p = pads[2U - pad];
 
